@@ -932,7 +932,7 @@ func (r *run) call(s *State, c *ast.CallExpr) []outcome {
 	case RolePushRecovery:
 		var at []string
 		for _, a := range c.Args {
-			at = append(at, in.exprText(a))
+			at = append(at, r.throughLocal(a))
 		}
 		s.event("pushRecovery", c.Pos(), at...)
 		s.Rec = saturate(s.Rec + 1)
@@ -2174,4 +2174,47 @@ func (r *run) isTopIndexSlice(s *State, rhs ast.Expr) bool {
 		}
 	}
 	return true
+}
+
+// throughLocal renders an argument; a local that is defined exactly once in the function, as a field selection
+// (`labels := recover.failureLabel`), reads as that selection.
+func (r *run) throughLocal(e ast.Expr) string {
+	id, ok := e.(*ast.Ident)
+	if !ok {
+		return r.in.exprText(e)
+	}
+	obj := r.in.Info.ObjectOf(id)
+	if obj == nil {
+		return r.in.exprText(e)
+	}
+	n := 0
+	var def ast.Expr
+	ast.Inspect(r.fd.Body, func(nd ast.Node) bool {
+		switch x := nd.(type) {
+		case *ast.AssignStmt:
+			for i, l := range x.Lhs {
+				if lid, ok := l.(*ast.Ident); ok && r.in.Info.ObjectOf(lid) == obj {
+					n++
+					if len(x.Lhs) == len(x.Rhs) {
+						def = x.Rhs[i]
+					}
+				}
+			}
+		case *ast.IncDecStmt:
+			if lid, ok := x.X.(*ast.Ident); ok && r.in.Info.ObjectOf(lid) == obj {
+				n += 2
+			}
+		case *ast.UnaryExpr:
+			if lid, ok := x.X.(*ast.Ident); ok && x.Op == token.AND && r.in.Info.ObjectOf(lid) == obj {
+				n += 2
+			}
+		}
+		return true
+	})
+	if n == 1 && def != nil {
+		if _, isSel := def.(*ast.SelectorExpr); isSel {
+			return r.in.exprText(def)
+		}
+	}
+	return r.in.exprText(e)
 }
